@@ -43,6 +43,10 @@ if TYPE_CHECKING:
     from deep.processor.context.action_context import ActionContext
 
 
+# where our own code lives (the deep package)
+_OWN_CODE = os.path.dirname(os.path.dirname(os.path.abspath(__file__))) + os.sep
+
+
 class TracepointHandlerUpdateListener(ConfigUpdateListener):
     """This is the listener that connects the config to the handler."""
 
@@ -157,6 +161,12 @@ class TriggerHandler:
             return self.trace_call
 
     def _trace_call(self, frame: FrameType, event: str, arg):
+        if frame.f_code.co_filename.startswith(_OWN_CODE):
+            # our own code runs on traced threads too (register_tracepoint on a thread of the application, the poll and
+            # the delivery threads): we do not instrument ourselves. A tracepoint that happens to match one of our files
+            # (locations match on the base name, e.g. '__init__.py') would fire in the middle of the task handler, under
+            # its lock, and the hand-over of that snapshot would wait for the lock its own thread holds.
+            return None
         if self.__shutdown:
             # shutdown can only reset the trace function of the thread it is called on, every other thread that was
             # started while we were active still has us as its trace function: take no more actions, and give these
